@@ -123,8 +123,36 @@ static void build_api(typename Doc::NodeType& n, const ref::Value& v, typename D
   static const char* lit_empty = "";
   switch (v.k) {
     case ref::Null:
-      if (extras) n.SetString("stale payload that is overwritten", al);  // stale bytes in the node
-      n.SetNull();
+      if (extras) {
+        // a null with stale bytes in the node: overwritten by SetNull, or the residue a move leaves behind
+        // (move construction / PushBack / AddMember / Swap turn the source into null by rewriting the type only)
+        static unsigned rot = 0;
+        switch (rot++ % 4) {
+          case 0:
+            n.SetString("stale payload that is overwritten", al);
+            n.SetNull();
+            break;
+          case 1: {
+            n.SetString("moved-out string", al);
+            N sink(std::move(n));
+            break;
+          }
+          case 2: {
+            n.SetDouble(-1234.5);
+            N sink(std::move(n));
+            break;
+          }
+          default: {
+            n.SetArray();
+            n.PushBack(N(7), al);
+            N sink;
+            sink = std::move(n);
+            break;
+          }
+        }
+        if (!n.IsNull()) n.SetNull();
+      } else
+        n.SetNull();
       break;
     case ref::True: n.SetBool(true); break;
     case ref::False:
